@@ -4,7 +4,7 @@ import os
 
 from ..core import AnalysisError, call_name, dotted, is_const, src, walk_shallow, norm_stmt, canon
 from ..lib import calls_in, method_calls, need, find_loops, mentions_attr
-from ..template import compare, template_func
+from ..template import compare, template_func, classify, statement_diff, effects as _effects
 
 D = 'pero_ocr.decoding.decoders'
 DEC = D + ':CTCPrefixLogRawNumpyDecoder'
@@ -31,6 +31,7 @@ def template_check(repo, chk, rule, qual, name, what, ref=None, keep=()):
     """The function has exactly the effects of its reference form (modulo renaming, inlining of locals,
     commutativity / associativity, distribution over the semiring); logging-only extras are ignored."""
     fi = repo.func(qual)
+    chk.templated.add(fi.qual)
     tail = fi.qual.split(':')[-1]
     nested = tail.count('.') >= (2 if fi.cls else 1)
     ok, missing, extra = compare(fi, template_func(ref or ref_source(), name, closure=nested), keep=keep)
@@ -38,12 +39,17 @@ def template_check(repo, chk, rule, qual, name, what, ref=None, keep=()):
     ok = not missing and not extra
     if ok:
         chk.equiv.add(fi.qual)
-    detail = ''
-    if not ok:
-        detail = 'expected: ' + ' || '.join(e.show() for e in missing)[:700] + '  ## found instead: ' + ' || '.join(e.show() for e in extra)[:700]
+        chk.ob(rule, fi, fi.node, what, True, construct='template ' + name)
+        return True
+    tmpl = template_func(ref or ref_source(), name, closure=nested)
+    ch, n_st = statement_diff(fi, tmpl)
+    detail = '%d of %d statements differ from the reviewed form | expected: ' % (ch, n_st) + ' || '.join(e.show() for e in missing)[:700] + \
+        '  ## found instead: ' + ' || '.join(e.show() for e in extra)[:700]
     node = extra[0].node if extra else fi.node
-    chk.ob(rule, fi, node, what, ok, detail, construct='template ' + name)
-    return ok
+    o = chk.ob(rule, fi, node, what, False, detail, construct='template ' + name)
+    if o is not None:
+        o.stmtdiff = (ch, n_st)
+    return False
 
 
 def guard_normalised(repo, chk, rule, qual):
